@@ -1,3 +1,142 @@
 import KsiVerif.Util.DriverMain
-open KsiVerif
-def main : IO Unit := runDriver (fun i _ => "skip no-model-yet " ++ i)
+import KsiVerif.Model.PduMac
+import KsiVerif.Model.Sha
+import KsiVerif.Model.Tcp
+/-! Model driver for C06 — protocol in harness/exec_c06.c. -/
+open KsiVerif KsiVerif.Template KsiVerif.PduMac
+
+def Hreal : HashChain.HashFn := fun algo d => (Sha.hashById algo).map (· d)
+
+def cfg : Cfg := { derOK := fun _ => false }
+
+def algOpt (s : String) : Option Nat := if s == "-" then none else s.toNat?
+
+def verdict (cls model impl : String) (spec : Option String) : String :=
+  match spec with
+  | some why => s!"specfail {cls} {why}"
+  | none => if model == impl then s!"ok {cls}" else s!"diff {cls} model={model}"
+
+def intField (tabs : Tables) (tname : String) (tag : Nat) (v : Option Val) : Nat :=
+  match v with
+  | some (.obj fs) => match fieldOf tabs tname tag fs with | some (.int n) => n | _ => 0
+  | _ => 0
+
+/-- what the blocking client reports after a successful delivery -/
+def summary (f : Family) (raw : Bytes) (vs : List (Nat × Val)) : String × Option Val × Bool :=
+  let rootTag := match Tlv.memRead raw with | .ok h => h.tag | .error _ => 0
+  let tn := pduTable f rootTag
+  let v1 := rootTag == 0x200 || rootTag == 0x300
+  let respTag := if v1 then (tags f true).2 else 0x02
+  let resp := fieldOf cfg.tabs tn respTag vs
+  let rt := match f, v1 with
+    | .aggr, true => "KSI_AggregationResp" | .aggr, false => "KSI_AggregationResp_v2"
+    | .ext, true => "KSI_ExtendResp" | .ext, false => "KSI_ExtendResp_v2"
+  let id := intField cfg.tabs rt 0x01 resp
+  let st := intField cfg.tabs rt 0x04 resp
+  -- a configuration: inside the v1 aggregation response, or as its own element of a v2 PDU (then pushed to the callback)
+  let confInResp := match f, v1, resp with
+    | .aggr, true, some (.obj fs) => (fieldOf cfg.tabs rt 0x10 fs).isSome
+    | _, _, _ => false
+  let pushed := !v1 && (fieldOf cfg.tabs tn 0x04 vs).isSome
+  (s!"resp={if resp.isSome then 1 else 0} id={id} st={st} conf={if confInResp then 1 else 0} cb={if pushed then 1 else 0}", resp, pushed)
+
+def handle (inp out : String) : String :=
+  let ow := words out
+  match words inp with
+  | "hmac" :: alg :: key :: chunks =>
+    match alg.toNat?, ofHex key, chunks.mapM ofHex with
+    | some a, some k, some cs =>
+      let ms := match Hmac.create Hreal a k cs.flatten with
+        | .error e => s!"{e}"
+        | .ok imp => s!"0 0 {toHex imp} 0 {toHex imp} 0 {toHex imp}"
+      verdict s!"hmac:a{a}:k{if k.length < 64 then "lt" else if k.length == 64 then "eq64" else if k.length ≤ 128 then "le128" else "gt"}:{ow.headD "?"}" ms out none
+    | _, _, _ => "skip bad-args"
+  | ["req", fam, ver, alg, login, key, cb] =>
+    match ver.toNat?, alg.toNat?, ofHex login, ofHex key with
+    | some v, some a, some lg, some k =>
+      let f : Family := if fam == "aggr" then .aggr else .ext
+      -- oracle on the bytes the implementation handed to the transport: they parse as a request PDU of
+      -- the configured version, carry the login id, and the MAC is RFC 2104 under the key and the
+      -- configured algorithm over the authenticated range, recomputed here
+      let spec : Option String := match ow with
+        | ["0", rq] =>
+          match ofHex rq with
+          | none => some "unreadable-request"
+          | some raw =>
+            let parsed := match f with | .aggr => parseAggrPdu cfg v raw | .ext => parseExtPdu cfg v raw
+            match parsed with
+            | .error e => some s!"request-does-not-parse:{e}"
+            | .ok vs =>
+              let rootTag := match Tlv.memRead raw with | .ok h => h.tag | .error _ => 0
+              let w := view cfg.tabs f rootTag vs
+              let hdrLogin := match fieldOf cfg.tabs (pduTable f rootTag) 0x01 vs with
+                | some (.obj fs) => match fieldOf cfg.tabs "KSI_Header" 0x01 fs with | some (.str s) => some s | _ => none
+                | _ => none
+              if hdrLogin != some (lg ++ [0]) then some "login-id-not-in-the-header"
+              else if !w.request then some "no-request-in-the-pdu"
+              else match w.hmac with
+                | none => some "request-without-mac"
+                | some mac =>
+                  if (mac.headD 0).toNat != a then some "mac-not-under-the-configured-algorithm"
+                  else match calcHmac Hreal f v a k raw w with
+                    | .error e => some s!"mac-not-recomputable:{e}"
+                    | .ok want => if want == mac then none else some "request-mac-is-not-the-hmac-of-the-authenticated-range"
+        | _ => none
+      match spec with
+      | some why => s!"specfail req:{fam}:v{v}:a{a}:cb{cb} {why}"
+      | none => s!"ok req:{fam}:v{v}:a{a}:cb{cb}:{ow.headD "?"}"
+    | _, _, _, _ => "skip bad-args"
+  | ["resp", fam, ver, calg, key, reply, auth] =>
+    match ver.toNat?, ofHex key, ofHex reply with
+    | some v, some k, some raw =>
+      let f : Family := if fam == "aggr" then .aggr else .ext
+      let ms := match deliver Hreal cfg f v (algOpt calg) k raw with
+        | .error e => s!"{e} cb=0"
+        | .ok vs => s!"0 {(summary f raw vs).1}"
+      let st := ow.headD "?"
+      -- the generator says whether the reply is an unmodified PDU authenticated under this key, algorithm and version
+      let spec := if auth == "auth=0" && st == "0" then some "content-delivered-from-a-reply-that-is-not-authentic"
+        else if auth == "auth=0" && !(out.endsWith "cb=0") then some "configuration-callback-invoked-for-a-reply-that-is-not-authentic"
+        else none
+      verdict s!"resp:{fam}:v{v}:{auth}:{st}" ms out spec
+    | _, _, _ => "skip bad-args"
+  | ["async", ver, calg, key, reply, auth] =>
+    match ver.toNat?, ofHex key, ofHex reply with
+    | some _, some k, some stream =>
+      let pdus := (Tcp.extract stream).1
+      -- every PDU of the stream is processed on its own (a failing one ends that run only)
+      let results := pdus.map fun raw => (raw, deliver Hreal cfg .aggr 2 (algOpt calg) k raw)
+      -- PDUs are processed in order; one that does not parse or authenticate fails the waiting request
+      let good := results.takeWhile fun (_, r) => match r with | .ok _ => true | .error _ => false
+      let delivered := good.any fun (raw, r) => match r with
+        | .ok vs => let (_, resp, _) := summary .aggr raw vs
+                    intField cfg.tabs "KSI_AggregationResp_v2" 0x01 resp == 1 && intField cfg.tabs "KSI_AggregationResp_v2" 0x04 resp == 0 && resp.isSome
+        | .error _ => false
+      -- (a later run goes on with the PDUs behind a failed one: an authentic pushed configuration there still reaches the callback)
+      let cbs := (results.filter fun (raw, r) => match r with | .ok vs => (summary .aggr raw vs).2.2 | .error _ => false).length
+      let implDelivered := ow.any (fun t => t.startsWith "R" && (t.splitOn ":").drop 1 == ["req", "3", "0"])
+      let implCb := (ow.find? (·.startsWith "cb=")).getD "cb=?"
+      let spec := if auth == "auth=0" && implDelivered then some "content-delivered-from-a-reply-that-is-not-authentic"
+        else if auth == "auth=0" && implCb != "cb=0" then some "configuration-callback-invoked-for-a-reply-that-is-not-authentic"
+        else none
+      -- the request the async client sent carries a correct MAC too
+      let sent := (ow.find? (·.startsWith "sent=")).map (fun s => (s.drop 5).toString)
+      let spec := match spec, sent.bind ofHex with
+        | some w, _ => some w
+        | none, some raw =>
+          (match parseAggrPdu cfg 2 raw with
+            | .error e => some s!"sent-request-does-not-parse:{e}"
+            | .ok vs =>
+              let w := view cfg.tabs .aggr 0x220 vs
+              match w.hmac with
+              | none => some "sent-request-without-mac"
+              | some mac => match calcHmac Hreal .aggr 2 (mac.headD 0).toNat k raw w with
+                | .ok want => if want == mac then none else some "sent-request-mac-wrong"
+                | .error e => some s!"sent-request-mac-not-recomputable:{e}")
+        | none, none => none
+      verdict s!"async:{auth}:d{if implDelivered then 1 else 0}" s!"delivered={if delivered then 1 else 0} cb={cbs}"
+        s!"delivered={if implDelivered then 1 else 0} {implCb}" spec
+    | _, _, _ => "skip bad-args"
+  | _ => "skip unknown-op"
+
+def main : IO Unit := runDriver handle
